@@ -32,6 +32,10 @@ for src in SOURCES:
     for c in Q.contracts:
         if c.kind != 'F' or c.sig is not None:
             continue
+        if getattr(c, 'loops', None):
+            # proved by an inductive loop contract in its own property (C14 n-step overloads for every n): the -O1 UBSan extraction of that loop is
+            # not a single-block loop (overflow check of ++i), so no loop contract applies here; the n-bounded twins of the same shims are claimed
+            continue
         b0 = Q.builds[c.build]
         if b0.mode != 'flat':
             continue
@@ -98,4 +102,4 @@ P.level_note = ('oracle = clang-14 -fsanitize=undefined,float-cast-overflow in t
 P.technique = 'CBMC reachability of compiler-inserted UBSan trap sites under contract preconditions (DFCC enforce)'
 P.design_ref = 'DESIGN.md section 6 C20'
 P.assumptions = ['documented domain = the REQUIRES clauses of the value contracts (taken from doc comments / GLSL text); where the documentation is silent the domain is all values of the type']
-P.not_covered = ['UB classes invisible to UBSan', 'functions without a shim in C05/C06/C07/C11/C14/C18/C19 (except integer abs/sign, declared here)', 'optimisation-level independence is the C15 relational check']
+P.not_covered = ['UB classes invisible to UBSan', 'n-step nextFloat/prevFloat loops beyond the unwinding bound of their n-bounded contracts (the value property C14 proves them for every n, the UBSan extraction is closed by unwinding only)', 'functions without a shim in C05/C06/C07/C11/C14/C18/C19 (except integer abs/sign, declared here)', 'optimisation-level independence is the C15 relational check']
